@@ -3,6 +3,7 @@ import PwVerif.Proofs.CacheTree
 import PwVerif.Proofs.CacheForest
 import PwVerif.Proofs.CacheFetch
 import PwVerif.Proofs.CacheFetchTree
+import PwVerif.Proofs.CacheCmp
 /-!
 # C05 — Caching is transparent: a run served from cache equals a real run
 
@@ -334,6 +335,29 @@ example : (CacheTree.runOps natSem KCfg.proposed 5 true { vals := [], kids := ki
        some [(1, 21014), (4, 33015)], none, some [(1, 29014), (4, 41015)]] := by decide
 example : ClsAgree kidsA kidsC ∧ key KCfg.current kidsA = key KCfg.current kidsA := ⟨by simp [ClsAgree, kidsA, kidsC], rfl⟩
 
+/-! an input channel with several connections: the key keeps their priority order (`fetch` takes the first) -/
+/-- child 3 takes its input from 1 and 2, 1 first -/
+def kidsP1 : List (Nat × T) := [(1, .leaf 10 [.val 7]), (2, .leaf 11 [.val 7]), (3, .leaf 12 [.multi [1, 2]])]
+/-- … after disconnecting and re-connecting 2: the same two connections, 2 first -/
+def kidsP2 : List (Nat × T) := [(1, .leaf 10 [.val 7]), (2, .leaf 11 [.val 7]), (3, .leaf 12 [.multi [2, 1]])]
+def insSorted (x : Nat) : List Nat → List Nat
+  | [] => [x]
+  | y :: ys => if x ≤ y then x :: y :: ys else y :: insSorted x ys
+/-- what a key that records the connections of a channel as a SET sees (seeded change C05-7) -/
+def forgetOrder : List (Nat × T) → List (Nat × T) :=
+  List.map (fun p => match p with
+    | (l, .leaf c ins) => (l, T.leaf c (ins.map (fun s => match s with
+        | .multi sibs => Src.multi (sibs.foldr insSorted [])
+        | s => s)))
+    | p => p)
+
+/-- the key of /repo tells the two apart, an order-blind key does not, and the results differ -/
+theorem C05_key_priority_witness :
+    K.beq (key KCfg.now kidsP1) (key KCfg.now kidsP2) = false ∧
+    key KCfg.now (forgetOrder kidsP1) = key KCfg.now (forgetOrder kidsP2) ∧
+    evalAll natSem 5 [] kidsP1 ≠ evalAll natSem 5 [] kidsP2 := by
+  refine ⟨by decide, by rfl, by decide⟩
+
 /-- the key as /repo has it now, at history level -/
 theorem C05_tree_transparent_now : TreeTransparent KCfg.now := C05_tree_transparent
 
@@ -488,6 +512,56 @@ example : (PwVerif.CacheFetchTree.runOps fetchF 0 true true true { body := nestB
     = (PwVerif.CacheFetchTree.runOps fetchF 0 true true false { body := nestBody, cache := none } nestOps).2 := by decide
 
 end FetchTree
+
+/-! ## what "the same input" means (`PwVerif.CacheCmp`): arbitrary values, the hit test as a parameter -/
+section Cmp
+open PwVerif.CacheCmp
+
+/-- ANY hit test that only ever equates inputs the function cannot tell apart is transparent: cached node and
+cache-free twin return the same for every history of assignments and runs -/
+theorem C05_cmp_transparent {V O : Type} (same : V → V → Bool) (F : V → O) (hs : ∀ v c, same v c = true → F v = F c)
+    (ops : List (PwVerif.CacheCmp.Op V)) :
+    (PwVerif.CacheCmp.runOps same F true St.init ops).2 = (PwVerif.CacheCmp.runOps same F false St.init ops).2 :=
+  (PwVerif.CacheCmp.runOps_sim same F hs ops St.init St.init ⟨rfl, rfl, by simp [St.init]⟩).1
+
+/-- a value as the hit test sees it: type tag, shape, content (all entries equal, for the witnesses) -/
+structure PyVal where
+  ty : Nat          -- 0 int, 1 float, 2 bool, 3 ndarray
+  shape : List Nat
+  elem : Nat
+  deriving DecidableEq, Repr
+
+def PyVal.size (v : PyVal) : Nat := v.shape.foldl (· * ·) 1
+/-- Python's `==` followed by `bool()`: content equal; for arrays with more than one element the truth value is
+ambiguous — an exception, read as a miss -/
+def pyEq (a b : PyVal) : Bool := a.elem == b.elem && (a.size ≤ 1 && b.size ≤ 1)
+/-- seeded change C05-9: … falling back to `.all()` of the broadcast comparison -/
+def pyEqAll (a b : PyVal) : Bool := a.elem == b.elem
+/-- proposed: type, shape and `==` -/
+def pyEqTyped (a b : PyVal) : Bool := a.ty == b.ty && a.shape == b.shape && a.elem == b.elem
+/-- a function that looks at type and shape -/
+def describe (v : PyVal) : Nat × List Nat × Nat := (v.ty, v.shape, v.elem * v.size)
+
+/-- /repo as it is: `1` then `1.0` — `==` says equal, the function tells them apart (finding KF-C05-9) -/
+theorem C05_cmp_current_witness :
+    (PwVerif.CacheCmp.runOps pyEq describe true St.init [.set ⟨0, [], 1⟩, .run, .set ⟨1, [], 1⟩, .run]).2 ≠
+    (PwVerif.CacheCmp.runOps pyEq describe false St.init [.set ⟨0, [], 1⟩, .run, .set ⟨1, [], 1⟩, .run]).2 := by decide
+
+/-- seeded change C05-9: `ones(3)` then `ones((2,3))` broadcast to all-equal -/
+theorem C05_cmp_broadcast_witness :
+    (PwVerif.CacheCmp.runOps pyEqAll describe true St.init [.set ⟨3, [3], 1⟩, .run, .set ⟨3, [2, 3], 1⟩, .run]).2 ≠
+    (PwVerif.CacheCmp.runOps pyEqAll describe false St.init [.set ⟨3, [3], 1⟩, .run, .set ⟨3, [2, 3], 1⟩, .run]).2 ∧
+    (PwVerif.CacheCmp.runOps pyEq describe true St.init [.set ⟨3, [3], 1⟩, .run, .set ⟨3, [2, 3], 1⟩, .run]).2 =
+    (PwVerif.CacheCmp.runOps pyEq describe false St.init [.set ⟨3, [3], 1⟩, .run, .set ⟨3, [2, 3], 1⟩, .run]).2 := by
+  refine ⟨by decide, by decide⟩
+
+/-- the proposed test satisfies the hypothesis of `C05_cmp_transparent` for every function of (type, shape, content) -/
+theorem C05_cmp_typed_sound {O : Type} (G : Nat × List Nat × Nat → O) (v c : PyVal) (h : pyEqTyped v c = true) :
+    G (v.ty, v.shape, v.elem) = G (c.ty, c.shape, c.elem) := by
+  simp only [pyEqTyped, Bool.and_eq_true, beq_iff_eq] at h
+  rw [h.1.1, h.1.2, h.2]
+
+end Cmp
 end PwVerif.C05
 
 #print axioms PwVerif.C05.C05_transparent
@@ -528,3 +602,8 @@ end PwVerif.C05
 #print axioms PwVerif.C05.C05_replace_keeps_cache_witness
 #print axioms PwVerif.C05.C05_fetch_tree_transparent
 #print axioms PwVerif.C05.C05_fetch_shallow_witness
+#print axioms PwVerif.C05.C05_key_priority_witness
+#print axioms PwVerif.C05.C05_cmp_transparent
+#print axioms PwVerif.C05.C05_cmp_current_witness
+#print axioms PwVerif.C05.C05_cmp_broadcast_witness
+#print axioms PwVerif.C05.C05_cmp_typed_sound
